@@ -8,7 +8,8 @@ ID = "C16"
 LEAN_MODULES = ["Properties.C16"]
 THEOREMS = ["EngineModel.Properties.C16." + t for t in [
     "C16_observers_pure", "C16_observer_answer", "C16_observers_pure_any_plan", "C16_repeat", "C16_frame",
-    "C16_no_write_no_change"]]
+    "C16_no_write_no_change", "C16_api_observer", "C16_api_history", "C16_api_answers", "C16_crates_v1", "C16_crates_v2",
+    "C16_tracks_v2"]]
 ASSUMPTIONS = [
     "SqliteSemantics (modelled, Spec/Txn.lean): a statement SQLite classifies read-only (sqlite3_stmt_readonly) leaves "
     "the connection state as it was.  Checked on every monitored application against sqlite3_total_changes, the raw "
@@ -26,7 +27,11 @@ MANIFEST = dict(
          "operations (statement sequences on the modelled SQLite connection), an operation classified as observer — "
          "every statement it steps is read-only — is the identity on the connection state by proof, answers from the "
          "unchanged database, and any sequence of observers can be repeated / inserted / dropped without effect; "
-         "C16_no_write_no_change extends this to calls that open scopes but never write, under every fault plan. Tied to the code by applying "
+         "C16_no_write_no_change extends this to calls that open scopes but never write, under every fault plan; "
+         "C16_api_history / C16_api_answers (instances C16_crates_v1, C16_crates_v2, C16_tracks_v2) put the accessors of "
+         "the concrete API models (1.x crates, 2.x crates, 2.x tracks) into that alphabet: interleaved anywhere in a "
+         "history of the model's mutating calls they leave the state the mutating calls alone produce and answer from "
+         "it. Tied to the code by applying "
          "every read-only operation of database, crate, track, the engine entry points (database_exists, load_database, "
          "create_or_load_database on an existing library) and the 2.x table API twice on every visited state of "
          "generated histories on on-disk libraries: the observed statement-kind sequence of each application is decided "
@@ -36,7 +41,7 @@ MANIFEST = dict(
     note="Trusted/limits: the classification of a real statement as read-only is SQLite's sqlite3_stmt_readonly (checked "
          "against change counter, raw dump and file hash on every application, not proved); states are sampled "
          "(generated histories, every prefix), the for-all over states is proved for the model only; table-API states "
-         "are those reachable through the public API plus table-API setter perturbations.",
+         "are those reachable through the public API plus table-API setter perturbations (tableapi.touch).",
     technique="Lean 4 theorems over an operation/connection model + run-time monitors on the real library (link-time "
               "sqlite3_step wrapper, total_changes, raw dumps through the C API, SHA-256 of the files)",
     ref="6/C16")
@@ -287,12 +292,18 @@ def tie(ctx):
     thorough = ctx.tier == "thorough"
     schemas = G.pick_schemas(ctx.tier, ctx.seed)
     n_hist = 2
-    lengths = [22, 30] if thorough else [16, 22]
+    lengths = [30, 36] if thorough else [24, 22]
     cases = []
     for sch in schemas:
         for hi in range(n_hist):
-            h = G.gen_history(rng, sch, lengths[hi % len(lengths)])
-            cases.append({"schema": sch, "hist": list(h.lines), "ops": dict(h.ops_used)})
+            h = G.gen_history(rng, sch, lengths[hi % len(lengths)], enrich="early" if hi % 2 == 0 else False)
+            lines = list(h.lines)
+            if G.family(sch) == "v2":
+                # rows the high-level API never produces: table-API setters on every track, twice along the history
+                for pos, n in ((len(lines) * 2 // 3, rng.randrange(1000)), (len(lines) // 3, rng.randrange(1000))):
+                    lines.insert(pos, "tableapi.touch %d" % n)
+                h.ops_used["table-API setters (tableapi.touch)"] = 2
+            cases.append({"schema": sch, "hist": lines, "ops": dict(h.ops_used)})
     scripts = [build_script(c["schema"], c["hist"]) for c in cases]
     outs = runner.run_harness(scripts, watchdog=60)
     violations, divergences = [], []
